@@ -213,7 +213,7 @@ func wConfig(prop, tier string) *Config {
 		cfg.Phases = append(cfg.Phases, Phase{Name: "llp-forced-closes-depth2", Roots: []string{"R1", "R5", "R7", "R14"}, Ops: llpForced, Depth: 2, Dev: 2})
 	case "C12":
 		ops := []string{"bond_lp1_L", "unbond_lp2_half", "unbond_lp1_all", "join_p1_all_t1", "exit_p1_all_t1", "exit_p1_10pct_lp1", "join_p2_all_t1", "exit_p2_all_t1", "llp_open_t1_x3", "llp_close_full_t1", "llp_bot_close_all", "mc_claim_lp1", "commit_eden_lp1", "commit_edenb_lp1", "uncommit_eden_lp1",
-			"vest_eden_lp1", "cancel_vest_lp1", "claim_vesting_lp1", "stake_elys_lp1", "unstake_elys_lp1", "gap_59m", "gap_61m", "price_atom_2", "empty", "exit_p2_all_lp1", "unbond_lp2_all", "estaking_withdraw_lp1", "unstake_elys_lp1_all", "uncommit_eden_lp1_all", "uncommit_edenb_lp1_all", "stake_eden_lp1", "unstake_eden_lp1", "unstake_elys_lp1_60pct", "unstake_elys_lp1_90pct", "llp_open_t2_x5", "llp_close_full_t2_at_1", "llp_close_full_t1_at_1", "llp_bot_close_all_at_1"}
+			"vest_eden_lp1", "cancel_vest_lp1", "claim_vesting_lp1", "stake_elys_lp1", "unstake_elys_lp1", "gap_59m", "gap_61m", "price_atom_2", "empty", "exit_p2_all_lp1", "unbond_lp2_all", "estaking_withdraw_lp1", "unstake_elys_lp1_all", "uncommit_eden_lp1_all", "uncommit_edenb_lp1_all", "stake_eden_lp1", "unstake_eden_lp1", "unstake_elys_lp1_60pct", "unstake_elys_lp1_90pct", "llp_open_t2_x5", "llp_close_full_t2_at_1", "llp_close_full_t1_at_1", "llp_bot_close_all_at_1", "commit_ueden_lp1_more_than_claimed", "commit_uedenb_lp1_more_than_claimed"}
 		cfg.Oracles = []*Oracle{OracleC12()}
 		roots016 := []string{"R0", "R1", "R6", "R8"}
 		if thorough {
